@@ -71,8 +71,10 @@ pub fn run(toks: &[&str], out: &mut String) {
         "npyw" => {
             let a = Array::new(parse_bits_list(toks[2]), parse_list(toks[1])).expect("shape");
             let mut buf = Vec::new();
-            a.write_npy(&mut buf).expect("write to Vec");
-            out.push_str(&hex(&buf));
+            match a.write_npy(&mut buf) {
+                Ok(()) => out.push_str(&hex(&buf)),
+                Err(_) => out.push_str(if buf.is_empty() { "ERR" } else { "ERR-after-partial-output" }),
+            }
         }
         "npyr" => {
             let bytes = unhex(toks[1]);
